@@ -14,7 +14,7 @@ import (
 	"strconv"
 
 	"verif/core"
-	_ "verif/filecheck"
+	"verif/filecheck"
 	_ "verif/pqcheck"
 )
 
@@ -94,6 +94,11 @@ func main() {
 		if res.Status == core.Violated {
 			os.Exit(1)
 		}
+	case "c18helper":
+		if len(args) < 1 {
+			usage()
+		}
+		filecheck.OSLockHelperMain(args[0])
 	case "replay":
 		if len(args) < 1 {
 			usage()
